@@ -36,7 +36,7 @@ func minArgs(v ssa.Value) []ssa.Value {
 func checkC16(c *Ctx, r *Report, tier string) {
 	r.Rule("C16.R1", "no aliasing between partitions: a slice stored into an element of the placement result inside a loop is freshly allocated in that iteration (make+copy, append onto nil/fresh, or a fresh membership call), never a sub-slice of a buffer rewritten by the same loop", 1)
 	r.Rule("C16.R2", "count: the stored slice has length min(len(members), replication factor) and nothing else", 1)
-	r.Rule("C16.R3", "members, distinct: the buffer comes from Conn.NodeIds() (keys of the address map); its only element writes are a pure two-index swap inside the shuffle callback", 2)
+	r.Rule("C16.R3", "members, distinct: the buffer comes from Conn.NodeIds() (keys of the address map); its only element writes are a pure two-index swap inside the shuffle callback; the membership call returns a fresh slice", 3)
 	r.Rule("C16.R4", "placement travels in the proposal: the proposer stores element i of the placement result into partition i's NodeIds before marshalling; the apply side never calls the placement function", 2)
 	// placement function: method returning [][]uint64 that calls Conn.NodeIds
 	var place *ssa.Function
@@ -249,6 +249,18 @@ func checkC16(c *Ctx, r *Report, tier string) {
 		}
 	}
 	r.Check(okSwap, "C16.R3", fn, "permutation-only", c.Pos(place.Pos()), detail)
+	// the membership call hands out a fresh slice (the placement shuffles it in place)
+	if nf := c.Method("cluster", "Conn", "NodeIds"); nf != nil {
+		okF, whyF := true, "Conn.NodeIds() returns a freshly built slice"
+		for _, rt := range returnsOf(nf) {
+			if ok, why := freshSlice(rt.Results[0]); !ok {
+				okF, whyF = false, "Conn.NodeIds() hands out shared storage ("+why+") that the placement shuffles in place: concurrent creates tear each other's swaps (a node twice in one partition) and corrupt the member list"
+			}
+		}
+		r.Check(okF, "C16.R3", fnName(nf), "fresh-member-list", c.Pos(nf.Pos()), whyF)
+	} else {
+		r.Unk("C16.R3", "cluster.Conn", "NodeIds", "-", "method not found")
+	}
 	// R4
 	fNodeIds := c.Field("protobuf", "Partition", "NodeIds")
 	var proposers []*ssa.Function
